@@ -169,6 +169,15 @@ fn check_set(r: &Row, prior: usize, vi: usize) -> Vec<Viol> {
             out.push(viol("nothing-else-moves", ctx(&format!("paragraph {}: other fields {:?} -> {:?}", i, strip(b), strip(a)))));
         }
     }
+    // other accessors that read (another part of) the same field keep their reading
+    for r2 in rows().iter().filter(|r2| r2.view == r.view && r2.base == r.base && r2.field == r.field && r2.accessor != r.accessor) {
+        if let (Ok(b), Ok(a)) = ((r2.get)(&doc), (r2.get)(&obs.after)) {
+            // (only when that part existed before: creating the field necessarily gives the other part a reading)
+            if a != b && b != "None" {
+                out.push(viol("sibling-accessor-unchanged", ctx(&format!("{} read {} before and {} after", key(r2), b, a))));
+            }
+        }
+    }
     if comments(&doc) != comments(&obs.after) {
         out.push(viol("nothing-else-moves", ctx(&format!("comments {:?} -> {:?}", comments(&doc), comments(&obs.after)))));
     }
